@@ -26,7 +26,7 @@ EXTRA = {  # seeds that other checks should see as well
     "C03-L": ["C04"], "C04-K": ["C08"], "C04-L": ["C17"], "C07-L": ["C11", "C12"], "C09-K": ["C12"], "C09-L": ["C02"], "C10-K": ["C08"],
     "C10-L": ["C07"], "C11-L": ["C15"], "C13-K": ["C01"], "C03-K": ["C04"],
     # round 7
-    "C09-M": ["C02", "C12"], "C08-M": ["C11"], "C12-M": ["C07"], "C13-M": ["C12", "C01"],
+    "C09-M": ["C02", "C12"], "C08-M": ["C11"], "C12-M": ["C07"], "C13-M": ["C12", "C01"], "C01-M": ["C12"], "C04-M": ["C03", "C17"], "C03-M": ["C17"], "C18-M": ["C02"], "C02-M": ["C07"],
 }
 
 
